@@ -922,6 +922,13 @@ func (em *emitter) emitUnaryOp(expr *ast.UnaryOperator, reg int8, regType reflec
 	// *operand
 	case ast.OperatorPointer:
 		exprReg := em.emitExpr(operand, operandType)
+		if exprReg < 0 {
+			// The pointer is in an indirect register: load it into a direct
+			// register before dereferencing it.
+			tmp := em.fb.newRegister(reflect.Pointer)
+			em.changeRegister(false, exprReg, tmp, operandType, operandType)
+			exprReg = tmp
+		}
 		if canEmitDirectly(exprType.Kind(), regType.Kind()) {
 			em.changeRegister(false, -exprReg, reg, operandType.Elem(), regType)
 			return
